@@ -15,7 +15,8 @@ RULE = ('Hypothesis generates sequential programs (instance and class-level oper
         'BaseException, raised by the operation between steps or inside an intercepted input/output body, incl. after '
         'outputs were captured - crossed with metadata extractors that succeed, raise or return junk (None, int, list), '
         'with slow save / slow extractor to separate the duration from later work, invoked from plain code or from inside '
-        'an except block of the caller (ordinary and interrupt-style), on in-memory/file/S3 cassettes. '
+        'an except block of the caller (ordinary and interrupt-style), on a fresh recorder or on one that recorded (and '
+        'replayed) another operation before, on in-memory/file/S3 cassettes. '
         'Oracle (model from the harness journal, read back through the cassette): operation class is the program\'s '
         'class; 0 <= duration, harness-measured time inside the operation body <= duration <= time from just before the '
         'call to the moment save was invoked; timestamp parses and lies between the harness\' before/after UTC '
@@ -47,6 +48,7 @@ def check_case(ctx, case):
     prog, flags = FR.apply_faults(case['prog'], case['faults'])
     flags['slow_save_ms'] = case.get('slow_save_ms', 0)
     flags['within_handler'] = case.get('within_handler')
+    flags['prior'] = case.get('prior')
     prog['extractor_sleep_ms'] = case.get('slow_extractor_ms', 0)
     if prog.get('extractor', 'none') == 'none' and case.get('extractor_ok'):
         prog['extractor'] = 'ok'
@@ -153,7 +155,7 @@ def enumerate_case(ctx, base):
             raise
         ctx.case(case, nontrivial(prog, fl), classes=tuple('fault:' + f['kind'] + (':' + f['mode'] if 'mode' in f else '')
                                                           for f in fl) + (
-            'ends:' + eff['terminated'], 'caller:' + str(base.get('within_handler')), 'klass:' + prog.get('klass', 'instance'), 'cassette:' + base['cassette']))
+            'ends:' + eff['terminated'], 'caller:' + str(base.get('within_handler')), 'prior:' + str(base.get('prior')), 'klass:' + prog.get('klass', 'instance'), 'cassette:' + base['cassette']))
 
 
 def replay(ctx, case):
@@ -178,6 +180,7 @@ def bases(draw):
     return {'prog': prog, 'pair_seed': draw(st.integers(0, 10 ** 6)),
             'cassette': draw(st.sampled_from(['memory', 'memory', 'file', 's3'])),
             'within_handler': draw(st.sampled_from([None, None, 'exception', 'interrupt'])),
+            'prior': draw(st.sampled_from([None, None, ['record'], ['record', 'play'], ['record', 'play']])),
             'extractor_ok': draw(st.booleans()), 'slow_save_ms': draw(st.sampled_from([0, 0, 4])),
             'slow_extractor_ms': draw(st.sampled_from([0, 0, 4]))}
 
